@@ -70,7 +70,28 @@ type ingIn struct {
 	OAnn  int     `json:"oann,omitempty"`
 	Spec  int     `json:"spec,omitempty"`
 	Gen   int     `json:"gen,omitempty"` // only used by raw events
+	// Shape of the ingress: "" = http rule; tcp-rule = tcp-service-port annotation, backend in a rule
+	// with the root path; tcp-default = tcp-service-port, backend only in spec.defaultBackend;
+	// tcp-default-tls = the same plus a tls block
+	Shape string `json:"shape,omitempty"`
 }
+
+var tcpPorts = map[string]int{"a/i1": 7001, "a/i2": 7002, "b/i3": 7003}
+
+func shapeIdx(s string) int {
+	return map[string]int{"": 0, "tcp-rule": 1, "tcp-default": 2, "tcp-default-tls": 3}[s]
+}
+
+// what the model sees of the other annotations and of the rest of the spec
+func effOAnn(i ingIn) int {
+	if i.Shape != "" {
+		return i.OAnn + 10
+	}
+	return i.OAnn
+}
+func effSpec(i ingIn) int { return i.Spec + 10*shapeIdx(i.Shape) }
+
+func svcOf(n string) string { _, name := splitName(n); return "svc-" + name }
 
 type opIn struct {
 	Op    string   `json:"op"` // put | del | swap | putclass | delclass | create | update | delete
@@ -146,9 +167,33 @@ func mkIngress(in ingIn, gen int64) *networking.Ingress {
 	if len(ann) == 0 && in.OAnn%2 == 0 {
 		ann = nil // nil and empty maps are equal for the predicate
 	}
-	ing := c0809.Ingress(ns, name, ann, in.Class, hostOf(in.Name), "svc", 8080)
-	if in.Spec > 0 {
-		ing.Spec.Rules[0].HTTP.Paths[0].Path = fmt.Sprintf("/s%d", in.Spec)
+	if in.Shape != "" {
+		if ann == nil {
+			ann = map[string]string{}
+		}
+		ann["haproxy-ingress.github.io/tcp-service-port"] = fmt.Sprint(tcpPorts[in.Name])
+	}
+	host := hostOf(in.Name)
+	if in.Shape != "" {
+		host = ""
+	}
+	ing := c0809.Ingress(ns, name, ann, in.Class, host, svcOf(in.Name), 8080)
+	switch in.Shape {
+	case "":
+		if in.Spec > 0 {
+			ing.Spec.Rules[0].HTTP.Paths[0].Path = fmt.Sprintf("/s%d", in.Spec)
+		}
+	case "tcp-rule":
+		if in.Spec > 0 {
+			ing.Labels = nil
+			ing.Spec.Rules[0].HTTP.Paths[0].Path = ""
+		}
+	default:
+		ing.Spec.Rules = nil
+		ing.Spec.DefaultBackend = &networking.IngressBackend{Service: &networking.IngressServiceBackend{Name: svcOf(in.Name), Port: networking.ServiceBackendPort{Number: 8080}}}
+		if in.Shape == "tcp-default-tls" {
+			ing.Spec.TLS = []networking.IngressTLS{{}}
+		}
 	}
 	ing.Generation = gen
 	return ing
@@ -159,8 +204,15 @@ func baseObjects(classes []classIn) []client.Object {
 	for _, c := range classes {
 		objs = append(objs, mkClass(c))
 	}
+	// one service per ingress name: ingresses share neither hosts nor backends, so what the tracker
+	// reaches from an IngressClass name are the ingresses linked to it and nothing else
+	for _, n := range []string{"a/i1", "a/i2", "b/i3"} {
+		ns, _ := splitName(n)
+		svc, ep := c0809.Service(ns, svcOf(n), 8080, "172.17.0.11", nil)
+		objs = append(objs, svc, ep)
+	}
 	for _, ns := range []string{"a", "b"} {
-		svc, ep := c0809.Service(ns, "svc", 8080, "172.17.0.11", nil)
+		svc, ep := c0809.Service(ns, "svc", 8080, "172.17.0.12", nil)
 		objs = append(objs, svc, ep)
 	}
 	return objs
@@ -190,7 +242,7 @@ func coqClasses(cs []classIn) string {
 
 func coqIng(in ingIn, gen, rv int) string {
 	return fmt.Sprintf("{| i_name := %s; i_ann := %s; i_cls := %s; i_oann := %s; i_spec := %s; i_gen := %s; i_rv := %s |}",
-		hx.Str(in.Name), coqOptStr(in.Ann), coqOptStr(in.Class), hx.N(in.OAnn), hx.N(in.Spec), hx.N(gen), hx.N(rv))
+		hx.Str(in.Name), coqOptStr(in.Ann), coqOptStr(in.Class), hx.N(effOAnn(in)), hx.N(effSpec(in)), hx.N(gen), hx.N(rv))
 }
 
 type obsBatch struct {
@@ -350,6 +402,9 @@ func runEvents(in input) (obsBatch, []string) {
 type watchStep struct {
 	Batch obsBatch `json:"batch"`
 	View  []string `json:"view"`
+	// configured ingresses with an ingressClassName that the tracker reaches from that IngressClass name
+	Linked []string `json:"linked"`
+	Log    []string `json:"log,omitempty"` // converter warnings, never compared
 	// names selected by the documented rule at this point (oracle side)
 	Want []string `json:"want"`
 }
@@ -381,7 +436,7 @@ func runWatch(in input) (steps []watchStep, terms []string, terms2 []string) {
 				oi := curIn[i.Name]
 				gen := old.Generation
 				sameClass := (oi.Class == nil) == (i.Class == nil) && (i.Class == nil || *oi.Class == *i.Class)
-				if !sameClass || oi.Spec != i.Spec {
+				if !sameClass || effSpec(oi) != effSpec(i) {
 					gen++
 				}
 				o := mkIngress(i, gen)
@@ -461,7 +516,39 @@ func runWatch(in input) (steps []watchStep, terms []string, terms2 []string) {
 						view = append(view, strings.Replace(strings.TrimSuffix(h, ".local"), "-", "/", 1))
 					}
 				}
+				// tcp services: a port with a backend is the configuration of the ingress that owns the port
+				for port, tp := range p.HAProxy.TCPServices().Items() {
+					used := false
+					if dh := tp.DefaultHost(); dh != nil && !dh.Backend.IsEmpty() {
+						used = true
+					}
+					for _, th := range tp.Hosts() {
+						if !th.Backend.IsEmpty() {
+							used = true
+						}
+					}
+					if used {
+						for n, pn := range tcpPorts {
+							if pn == port {
+								view = append(view, n)
+							}
+						}
+					}
+				}
 			})
+			// the premise of the model: every converted ingress that names an IngressClass is linked to it
+			var linked []string
+			for _, n := range view {
+				if i, ok := curIn[n]; ok && i.Class != nil {
+					reach := env.Tracker.QueryLinks(convtypes.TrackingLinks{convtypes.ResourceIngressClass: []string{*i.Class}}, false)
+					for _, x := range reach[convtypes.ResourceIngress] {
+						if x == n {
+							linked = append(linked, n)
+						}
+					}
+				}
+			}
+			sort.Strings(linked)
 			sort.Strings(view)
 			var want []string
 			for n, i := range curIn {
@@ -470,7 +557,7 @@ func runWatch(in input) (steps []watchStep, terms []string, terms2 []string) {
 				}
 			}
 			sort.Strings(want)
-			steps = append(steps, watchStep{Batch: b, View: view, Want: want})
+			steps = append(steps, watchStep{Batch: b, View: view, Linked: linked, Want: want, Log: p.Log.Take()})
 			terms = append(terms, "OSwap")
 			terms2 = append(terms2, "ISwap []")
 		}
@@ -536,6 +623,9 @@ func genIng(rng *rand.Rand, name string, classPool []*string) ingIn {
 	}
 	if rng.Intn(3) == 0 {
 		i.Spec = rng.Intn(3)
+	}
+	if _, ok := tcpPorts[name]; ok && rng.Intn(5) < 2 {
+		i.Shape = []string{"tcp-rule", "tcp-default", "tcp-default", "tcp-default-tls"}[rng.Intn(4)]
 	}
 	return i
 }
@@ -700,6 +790,18 @@ func corpus() []input {
 			{Op: "put", Ing: &ingIn{Name: "a/i1", Ann: sp("haproxy"), Class: sp("other")}},
 			{Op: "putclass", Class: &classIn{Name: "other", Controller: oursCtrl}},
 			{Op: "put", Ing: &ingIn{Name: "a/i1", Ann: sp("haproxy"), Class: sp("hap")}},
+			{Op: "swap"}}},
+		// tcp-service-port ingresses, backend in a rule / only in spec.defaultBackend (+ tls), selected only
+		// through ingressClassName: the IngressClass is deleted without any event on the ingresses
+		{Kind: "classev", Cfg: cfg, Classes: cls, Ops: []opIn{
+			{Op: "swap"},
+			{Op: "put", Ing: &ingIn{Name: "a/i1", Class: sp("hap"), Shape: "tcp-default"}},
+			{Op: "put", Ing: &ingIn{Name: "a/i2", Class: sp("hap"), Shape: "tcp-rule"}},
+			{Op: "put", Ing: &ingIn{Name: "b/i3", Class: sp("hap"), Shape: "tcp-default-tls"}},
+			{Op: "swap"},
+			{Op: "delclass", Name: "hap"},
+			{Op: "swap"},
+			{Op: "putclass", Class: &classIn{Name: "hap", Controller: oursCtrl}},
 			{Op: "swap"}}},
 		// an IngressClass deleted and re-created (also with another controller in between)
 		{Kind: "classev", Cfg: cfg, Classes: cls, Ops: []opIn{
@@ -896,7 +998,7 @@ func main() {
 				// the same history (IngressClass events included) on the model with a changing class table
 				var obs, ks []string
 				for _, st := range steps {
-					obs = append(obs, hx.Tuple(coqBatch(st.Batch), coqStrs(st.Batch.CLinks), coqStrs(st.View)))
+					obs = append(obs, hx.Tuple(coqBatch(st.Batch), coqStrs(st.Batch.CLinks), coqStrs(st.View), coqStrs(st.Linked)))
 				}
 				for _, c := range in.Classes {
 					ks = append(ks, coqIClass(c, 1))
